@@ -169,11 +169,17 @@ def owner_table(comps):
 def gen_theta(r, jc, mode=None):
     """theta per index: inside / edge / outside of the owner's support."""
     t = owner_table(jc["comps"])
-    mode = mode or r.choice(["inside", "inside", "inside", "edge", "outside", "mixed"])
+    mode = mode or r.choice(["inside", "inside", "inside", "edge", "outside", "mixed", "one_out", "one_out"])
     th = []
+    # "one_out": exactly one coordinate with a bounded support is outside it (on a random side), all
+    # others strictly inside -- the sharpest input for any/all slips in the support tests
+    limited = [i for i in range(jc["n"]) if t.get(i, [("gauss",)])[0][0] != "gauss"]
+    out_one = r.choice(limited) if (mode == "one_out" and limited) else None
     for i in range(jc["n"]):
         own = t.get(i, [("gauss", Fraction(0), Fraction(1))])[0]
-        md = mode if mode != "mixed" else r.choice(["inside", "edge", "outside"])
+        md = mode if mode not in ("mixed", "one_out") else r.choice(["inside", "edge", "outside"])
+        if mode == "one_out":
+            md = "outside" if i == out_one else "inside"
         if own[0] == "gauss":
             v = dy(r)
         elif own[0] == "exp":
@@ -415,12 +421,15 @@ def gen_single(r, k):
         p2 = [a + 10.0 ** r.uniform(-6, 6) for a in p1]
         p2 = [b if b > a else a + 1.0 for a, b in zip(p1, p2)]
     c = {"kind": kind, "p1": [C.frac(x) for x in p1], "p2": [C.frac(x) for x in p2], "vars": vs}
-    mode = r.choice(["inside", "inside", "edge", "outside", "mixed"])
+    mode = r.choice(["inside", "inside", "edge", "outside", "mixed", "one_out", "one_out"])
     th = []
+    out_one = r.choice(vs) if mode == "one_out" else None
     for i in range(nth):
         if i in vs:
             j = vs.index(i)
-            md = mode if mode != "mixed" else r.choice(["inside", "edge", "outside"])
+            md = mode if mode not in ("mixed", "one_out") else r.choice(["inside", "edge", "outside"])
+            if mode == "one_out":
+                md = "outside" if i == out_one else "inside"
             if kind == "gauss":
                 v = p1[j] + p2[j] * r.choice([r.gauss(0, 2), r.uniform(-700, 700), 0.0])
             elif kind == "exp":
